@@ -98,7 +98,11 @@ def check_interleave(b, bp, ref, mi, tree, res: Result, w, rng):
     for mode in ("top", "top", "nested"):
         if mode == "top":
             wg._c08_mi = mi
-            raws, inserted = _insert_unknown(rng, wg, known, [r.raw for r in recs], rng.randint(1, 4))
+            # mostly a handful, now and then several hundred unknown records in one message
+            k_unknown = rng.choice([255, 256, 257, 300, 1000]) if rng.random() < 0.012 else rng.randint(1, 4)
+            if k_unknown > 4:
+                res.note("interleavings_with_hundreds_of_unknown_records")
+            raws, inserted = _insert_unknown(rng, wg, known, [r.raw for r in recs], k_unknown)
             wg._c08_mi = None
             e = b"".join(raws)
             nested_no = None
